@@ -101,6 +101,12 @@ Definition get_peers (r : Z) (s : state) : list peer :=
 (* func (t *Topology) IsConnected(addr) *)
 Definition is_connected (a : addr) (s : state) : bool := m_has a (providers s) || m_has a (bidders s).
 
+(* pkg/debugapi/debugapi.go : handleTopology, projected on connected_peers["providers"] and
+   connected_peers["bidders"] (a key that is absent from the JSON is the empty list); the handler is
+   registered by node.NewNode on the same Topology object *)
+Definition api_view (s : state) : list (list addr) :=
+  [map p_addr (get_peers ROLE_PROVIDER s); map p_addr (get_peers ROLE_BIDDER s)].
+
 (* --- discovery.go : BroadcastPeers ----------------------------------------------------------- *)
 (* common.Address.Bytes(): 20 bytes big endian ; common.BytesToAddress: the last 20 bytes,
    left-padded *)
